@@ -612,10 +612,18 @@ func concScenario(reg int, bounds []int) explore.Scenario {
 				panic(err)
 			}
 			accept(m, registered, ds[0])
+			// a second bystander, subscribed by ID: the by-ID dependents come after the by-kind ones (and so
+			// after the controller being registered) in what event delivery walks
+			gd := decl{name: "g", inputs: []controller.Input{rin(t1, "a", controller.InputWeak)}}
+			g := &px.Probe{NameV: gd.name, InputsV: gd.inputs}
+			if err := rt.RegisterController(g); err != nil {
+				panic(err)
+			}
+			accept(m, registered, gd)
 			runDone := false
 			vrt.GoNamed("runtime.Run", func() { rt.Run(ctx); runDone = true }) //nolint:errcheck
 			vrt.WaitQuiescent()
-			before := c1.Reconciles
+			before, gBefore := c1.Reconciles, g.Reconciles
 			vrt.Branching(true)
 			var rerr error
 			var newProbe *px.Probe
@@ -659,6 +667,9 @@ func concScenario(reg int, bounds []int) explore.Scenario {
 				x.FailKey("conc/graph", "graph export failed: %v", gerr)
 			} else if got := strings.Join(graphEdges(g), "; "); got != m.canon() {
 				x.FailKey("conc/graph", "after concurrent registration of %s (err=%v) the graph is {%s}, expected {%s}", d.name, rerr, got, m.canon())
+			}
+			if g.Reconciles <= gBefore {
+				x.FailKey("conc/lost-wake", "g (subscribed to %s/a by ID) was not woken by the creation of %s/a while %s was being registered", t1, t1, d.name)
 			}
 			if c1.Reconciles <= before {
 				x.FailKey("conc/lost-wake", "c1 was not woken by the creation of %s/a and /b while %s was being registered", t1, d.name)
